@@ -104,7 +104,7 @@ type c06Report struct {
 // makeSample builds the sample of report #n of reporter r and the line it must produce.
 func makeSample(kind string, tag string, seed uint64) (core.Sample, string, time.Time) {
 	if kind == "jsonlines" {
-		s := &jsonSample{Tag: tag, N: int(seed % 1000), F: float64(seed%97) / 7}
+		s := &jsonSample{Tag: tag, N: int(seed % 1000), F: float64(seed%97) / 7, Pad: stubs.PadFor(int(simrt.Split(seed, 11) % 1000))}
 		return s, "", time.Now()
 	}
 	s := netsample.Acquire(tag)
@@ -624,8 +624,12 @@ func runC06C(r *R) {
 	sigAt := time.Duration(f.Draw(int(dur/time.Millisecond)+1500)) * time.Millisecond
 	noSignal := f.Draw(6) == 0
 	stalls := w.Draw(6) == 0
-	r.Sample(map[string]any{"level": "C", "aggregator": sp.conf(), "instances": inst, "rps": fmt.Sprintf("const(%v,%v)", rate, dur), "shots": shots.String(), "signal": fmt.Sprint(sig), "signal_at": sigAt.String(), "no_signal": noSignal})
+	// a slow result disk (every write / sync / close of the result file takes this long): the final drain may then
+	// need more than the 3 s a SIGTERM allows (a stated, forced exit) but far less than the 30 s a SIGINT allows
+	slowDisk := []time.Duration{0, 0, 0, 300 * time.Millisecond, 1500 * time.Millisecond, 4 * time.Second}[f.Draw(6)]
+	r.Sample(map[string]any{"level": "C", "slow_disk": slowDisk.String(), "aggregator": sp.conf(), "instances": inst, "rps": fmt.Sprintf("const(%v,%v)", rate, dur), "shots": shots.String(), "signal": fmt.Sprint(sig), "signal_at": sigAt.String(), "no_signal": noSignal})
 	var (
+		sigT          time.Duration = -1
 		e             *c06Engine
 		exited        bool
 		exitMsg       string
@@ -658,6 +662,11 @@ func runC06C(r *R) {
 		if err != nil {
 			panic(err)
 		}
+		if slowDisk > 0 {
+			pl := simfs.NoPlan()
+			pl.Delay = slowDisk
+			e.disk.Plans[sp.Path] = &pl
+		}
 		done := make(chan struct{})
 		go func() {
 			defer close(done)
@@ -673,6 +682,7 @@ func runC06C(r *R) {
 				in, out := e.log.Count("shoot-in"), e.log.Count("shoot-out")
 				inFlightAtSig = in - out
 				sigSq = simrt.Seq()
+				sigT = time.Since(t0)
 				simsig.Send(sig)
 			}()
 		}
@@ -728,12 +738,34 @@ func runC06C(r *R) {
 	if os.Getenv("VERIF_DEBUG") != "" {
 		fmt.Fprintf(os.Stderr, "C06C: how=%s exit=%q at %v reported=%d lines=%d missing=%d sigAt=%v inflight=%d\n", how, exitMsg, exitT, reported, nlines, missing, sigAt, inFlightAtSig)
 	}
+	if signalled && strings.Contains(exitMsg, "Interrupt timeout exceeded") {
+		// the forced exit is stated behaviour, but only once the stated time is up: 30 s after a SIGINT, 3 s after a SIGTERM
+		allowed := 3 * time.Second
+		if sig == syscall.SIGINT {
+			allowed = 30 * time.Second
+		}
+		if waited := exitT - sigT; waited < allowed-time.Millisecond {
+			r.Fail("process-exit/gave-up-early/"+how, "the process gave up (%q) %v after the %s; the stated interrupt timeout is %v (slow disk %v; %d lines on disk, %d of %d earlier samples missing)", exitMsg, waited, how, allowed, slowDisk, nlines, missing, reported)
+			return
+		}
+		if slowDisk > 0 {
+			// the drain legitimately needed more than the stated time
+			r.Note("C/timeout-exit-on-slow-disk")
+			return
+		}
+	}
 	if stalls && strings.Contains(exitMsg, "timeout exceeded") {
 		// the forced exit when the 3 s / 30 s interrupt timeout runs out is pandora's stated behaviour; with injected
 		// stalls (tasks descheduled for up to a second at a time) the drain can legitimately take longer than that.
 		// Without stalls nothing in these runs takes that long, and a timeout exit is judged like any other.
 		r.Note("C/timeout-exit-under-injected-stalls")
 		return
+	}
+	if d := droppedFrom(e.aggrErr); d > 0 && missing <= d {
+		// (a slow disk can make even the large queue of these runs overflow: the bounded-queue aggregator counted the
+		// samples it dropped in the error it ended with)
+		r.Note("C/drops-counted-by-the-aggregator")
+		missing = 0
 	}
 	if missing > 0 {
 		r.Fail("process-exit/lost-samples/"+how, "the process exited (%q) at %v after %s; %d of the %d samples reported before the stop request are not in the result file (%d lines on disk; first missing %s; %s queue %d buffer %s)",
